@@ -137,8 +137,8 @@ def run(ctx):
                 continue
             ctx.add_violation("LALRParsingTable %s on a grammar" % {"PANIC": "panicked", "CRASH": "crashed or did not terminate"}.get(k, "returned " + k),
                               {"entry": "lalr", "input": g, "input_hex": hx(g.encode()), "implementation": decode_hex_fields(r)[:600]})
-    # outcome class of spec.Parse against the total Lean model (texts that are valid UTF-8 without NUL)
-    texts = [s for s in specs if b"\x00" not in s and len(s) < 2000]
+    # outcome class of spec.Parse against the total Lean model (texts that are valid UTF-8, zero bytes included)
+    texts = [s for s in specs if len(s) < 2000]
     try:
         good = [t for t in texts if t.decode("utf-8") is not None]
     except Exception:
